@@ -147,11 +147,13 @@ def check_npz(prog: Program, res: Result) -> None:
     for cname, key in (("BottomUpDataset", "image"), ("CenteredInstanceDataset", "instance_image"), ("CentroidDataset", "image"), ("SingleInstanceDataset", "image")):
         gi = prog.cls(f"{CD}:{cname}").methods.get("__getitem__")
         res.touch(gi)
-        branch = [n for n in walk_function(gi.node) if isinstance(n, ast.If) and norm(n.test) == "self.np_chunks"]
+        branch = [n for n in walk_function(gi.node) if isinstance(n, ast.If) and norm(n.test) in ("self.np_chunks", "not self.np_chunks")]
         if len(branch) != 1:
             res.ob(R, False, gi.qualname, "one np_chunks branch in __getitem__", f"{len(branch)} np_chunks branches", gi.where)
             continue
-        b = branch[0]
+        b0 = branch[0]
+        # normalise the polarity: `b.body` is the chunk arm, `b.orelse` the in-memory arm
+        b = b0 if norm(b0.test) == "self.np_chunks" else ast.If(test=b0.test, body=b0.orelse, orelse=b0.body)
         ld = [s for s in b.body if isinstance(s, ast.Assign) and isinstance(s.value, ast.Call) and norm(s.value.func) in ("np.load", "numpy.load")]
         ok = len(ld) == 1 and norm(ld[0].value.args[0]) == "f'{self.np_chunks_path}/sample_{index}.npz'"
         res.ob(R, ok, gi.qualname, "reader: np.load(<path>/sample_<index>.npz)", "the reader does not load <np_chunks_path>/sample_<index>.npz", gi.where)
